@@ -32,7 +32,7 @@ def main():
         subprocess.check_call(["git", "-C", repo, "apply", os.path.join(d, "patch.diff")])
         results = {}
         for p in props:
-            env = dict(os.environ, CATII_REPO=repo)
+            env = dict(os.environ, CATII_REPO=repo, VERIF_OUT=os.path.join(scratch, "out"))
             t0 = time.time()
             r = subprocess.run([os.path.join(VERIF, "check"), p, "--tier", a.tier], cwd=VERIF, env=env,
                                stdout=subprocess.PIPE, stderr=subprocess.STDOUT, text=True)
